@@ -96,6 +96,8 @@ type HarnessResult struct {
 	CrossQueries []CrossQuery
 	Outs         [][]string
 	SchedStates, SchedTransitions, SchedValidated int
+	MaxStepsPath        int64
+	StoppedOnViolations bool
 	RandTape    []TapeEntry
 	RandOutcome string
 }
@@ -117,6 +119,7 @@ type Explorer struct {
 	Deadline time.Time
 	Verbose  bool
 	RandSeed int64 // != 0: single random-concrete run (translator validation)
+	StopViolations int // stop exploring after this many violations (default 48)
 
 	mu      sync.Mutex
 	cond    *sync.Cond
@@ -332,6 +335,18 @@ func (ex *Explorer) collectPath(in *Interp) {
 	}
 	if in.thread != nil && in.thread.trace != nil {
 		r.Traces = append(r.Traces, in.thread.trace)
+	}
+	if in.steps > r.MaxStepsPath {
+		r.MaxStepsPath = in.steps
+	}
+	stopV := ex.StopViolations
+	if stopV == 0 {
+		stopV = 48
+	}
+	if len(r.Violations) >= stopV {
+		r.StoppedOnViolations = true
+		ex.stopped = true
+		ex.cond.Broadcast()
 	}
 	if r.Paths >= ex.MaxPaths || (!ex.Deadline.IsZero() && time.Now().After(ex.Deadline)) {
 		r.MaxPaths = true
